@@ -442,6 +442,29 @@ func (vc *VC) query(o *Obligation) string {
 			}
 		}
 	}
+	// concrete containment relation between the string literals of this VC
+	if strings.Contains(body, "scontains") {
+		type lit struct{ s, n string }
+		var lits []lit
+		for s, n := range vc.strlit {
+			if vc.strlitLine[n] < o.NLines {
+				lits = append(lits, lit{s, n})
+			}
+		}
+		sort.Slice(lits, func(i, j int) bool { return lits[i].n < lits[j].n })
+		for _, a := range lits {
+			for _, p := range lits {
+				if a.n == p.n {
+					continue
+				}
+				if strings.Contains(a.s, p.s) {
+					fmt.Fprintf(&b, "(assert (scontains %s %s))\n", a.n, p.n)
+				} else {
+					fmt.Fprintf(&b, "(assert (not (scontains %s %s)))\n", a.n, p.n)
+				}
+			}
+		}
+	}
 	b.WriteString("(assert " + o.PC + ")\n")
 	b.WriteString("(assert (not " + o.Goal + "))\n")
 	return b.String()
